@@ -387,6 +387,11 @@ func UnjudgedOnTimeout(sigs ...string) {
 	}
 }
 
+// TransientErr: the error text is an expired deadline / one of the raft library's temporary errors (see timeoutRE).
+func TransientErr(err error) bool {
+	return err != nil && timeoutRE.MatchString(err.Error())
+}
+
 // timedOut: failures of the "-error" kind (an engine / RPC call the harness needed returned an error) whose first line shows that the
 // error is an expired deadline.
 func timedOut(f *Failure) bool {
